@@ -68,6 +68,38 @@ fn compact_entry_text() -> BoxedStrategy<String> {
         .boxed()
 }
 
+/// long streams (20-70 compact entries, 3-10 KiB): one generated partition per case - a fixed
+/// chunk size, a few random cuts, or a single write - optionally with one malformed entry
+fn long_strategy(_tier: Tier) -> BoxedStrategy<Case> {
+    (
+        prop::collection::vec(compact_entry_text(), 20..70),
+        prop::option::weighted(0.3, (bad_entry(), any::<u16>())),
+        prop_oneof![
+            3 => prop::sample::select(vec![1usize, 7, 64, 100, 1000, 1024, 2048, 4096, 8192]).prop_map(|n| (n, vec![])),
+            2 => prop::collection::vec(any::<u16>(), 1..12).prop_map(|v| (0usize, v)),
+            1 => Just((0usize, vec![])),
+        ],
+    )
+        .prop_map(|(es, bad, (chunk, sels))| {
+            let mut entries: Vec<B> = es.into_iter().map(|e| B(e.into_bytes())).collect();
+            let mut bi = None;
+            if let Some((b, pos)) = bad {
+                let k = idx(pos, entries.len() + 1);
+                entries.insert(k, B(b));
+                bi = Some(k);
+            }
+            let total: usize = entries.iter().map(|e| e.0.len() + 1).sum();
+            let mut cuts: Vec<usize> = if chunk > 0 {
+                (1..).map(|k| k * chunk).take_while(|c| *c < total).collect()
+            } else {
+                sels.iter().map(|s| idx(*s, total + 1)).collect()
+            };
+            cuts.sort();
+            Case { entries, bad: bi, rand: 0, cuts: Some(cuts) }
+        })
+        .boxed()
+}
+
 fn case_strategy(tier: Tier) -> BoxedStrategy<Case> {
     let max_entries = tier.pick(3, 5);
     let good = prop::collection::vec(entry_text(), 1..=max_entries);
@@ -334,6 +366,12 @@ pub fn property() -> Property {
             "generated streams x enumerated and random partitions",
             case_strategy,
             |t| t.pick(400, 6_000),
+            check,
+        ), random_stream(
+            "long-streams",
+            "streams of 20-70 entries (3-10 KiB) x one generated partition (fixed chunk size incl. 1024/2048/4096/8192, random cuts, single write), optionally with one malformed entry",
+            long_strategy,
+            |t| t.pick(1_500, 40_000),
             check,
         ), crate::fuzz::replay_stream(),
         ],
